@@ -340,9 +340,11 @@ impl<CS: BbsCiphersuite> PoKSignature<BBSplus<CS>> {
     {
         let proof = self.inner()?;
         let disclosed_messages = disclosed_messages.unwrap_or(&[]);
-        let mut disclosed_indexes = disclosed_indexes.unwrap_or(&[]).to_vec();
-        disclosed_indexes.sort();
-        disclosed_indexes.dedup();
+        let disclosed_indexes = disclosed_indexes.unwrap_or(&[]).to_vec();
+        // the i-th disclosed message belongs to the i-th index: the list is taken as it is given and has to be in ascending order
+        if disclosed_indexes.windows(2).any(|w| w[0] >= w[1]) {
+            return Err(Error::PoKSVerificationError("disclosed indexes are not in ascending order".to_owned()));
+        }
 
         let U = proof.m_cap.len();
         let R = disclosed_indexes.len();
@@ -409,12 +411,12 @@ impl<CS: BbsCiphersuite> PoKSignature<BBSplus<CS>> {
         let L = L.unwrap_or(0);
         let disclosed_messages = disclosed_messages.unwrap_or(&[]);
         let disclosed_committed_messages = disclosed_committed_messages.unwrap_or(&[]);
-        let mut disclosed_indexes = disclosed_indexes.unwrap_or(&[]).to_vec();
-        disclosed_indexes.sort();
-        disclosed_indexes.dedup();
-        let mut disclosed_commitment_indexes = disclosed_commitment_indexes.unwrap_or(&[]).to_vec();
-        disclosed_commitment_indexes.sort();
-        disclosed_commitment_indexes.dedup();
+        let disclosed_indexes = disclosed_indexes.unwrap_or(&[]).to_vec();
+        let disclosed_commitment_indexes = disclosed_commitment_indexes.unwrap_or(&[]).to_vec();
+        // the i-th disclosed message belongs to the i-th index: both lists are taken as they are given and have to be in ascending order
+        if disclosed_indexes.windows(2).any(|w| w[0] >= w[1]) || disclosed_commitment_indexes.windows(2).any(|w| w[0] >= w[1]) {
+            return Err(Error::PoKSVerificationError("disclosed indexes are not in ascending order".to_owned()));
+        }
 
         let api_id = CS::API_ID_BLIND;
 
